@@ -303,7 +303,8 @@ PROPS = {
         bounded=_mod("c18"),
         trusted=TB,
         assumed=["symbolize_bitvec denotes the world"],
-        explanation="Engine P proves formula_rank (least rank of the models, None if none) and conditional_acceptance from the real "
+        explanation="Engine P proves formula_rank (least rank of the models, None if none), conditional_acceptance, is_ocf and "
+        "world_satisfies_conditionalization from the real "
         "source; marginalisation, conditionalisation and TPO conversion are compared with definitions on all small rankings (bounded).",
     ),
     "C19": dict(
